@@ -63,8 +63,8 @@ UNITS = {
                     quick=reg(FC, ['k_count']), thorough=[], assumptions=[STUBS[0]], timeout=600),
     'U-conv': dict(functions='functions::converters::parse_char/parse_int/parse_bool (+ skip behaviour of all five converters)', cls='complete on the i64 / char payload (single argument) for parse_char(Int), parse_int(Int), parse_int(Char); String arms delegate to std parse (trusted)',
                    quick=reg(FV, ['k_parse_char_int', 'k_parse_int_int', 'k_parse_int_char']), thorough=[], assumptions=[STUBS[0]], timeout=600),
-    'U-substr': dict(functions='functions::strings::substring', cls='bounded (ASCII strings of 0..3 bytes, one 2-byte char + 1 ASCII; all from,to: usize)',
-                     quick=reg(FS, ['k_substr_ascii_0', 'k_substr_ascii_1', 'k_substr_ascii_2', 'k_substr_ascii_3', 'k_substr_utf8_nopanic', 'k_substr_skips']), thorough=[], assumptions=STUBS, timeout=600),
+    'U-substr': dict(functions='functions::strings::substring', cls='bounded (ASCII strings of 0..2 bytes quick, 3 bytes thorough; one 2-byte char + 1 ASCII; all from,to: usize)',
+                     quick=reg(FS, ['k_substr_ascii_0', 'k_substr_ascii_1', 'k_substr_ascii_2', 'k_substr_utf8_nopanic', 'k_substr_skips']), thorough=reg(FS, ['k_substr_ascii_3']), assumptions=STUBS, timeout=600, mem_gb=8),
     'U-join': dict(functions='functions::strings::join', cls='bounded (empty selection; non-string member; unresolved member) -- the concatenation harness k_join exceeds 8 GB and is not registered',
                    quick=reg(FS, ['k_join_edge']), thorough=[], assumptions=STUBS, timeout=600),
     'U-cnf': dict(functions='eval::eval_conjunction_clauses (real generic code, T = forced leaf)',
